@@ -301,3 +301,63 @@ impl Driver for VotorDriver {
         }
     }
 }
+
+/// Arms the real Votor for the window of every case (a ParentReady event for its first slot), advances the
+/// paused clock in 1 ms steps and compares the instants at which the real timeouts fire with the schedule
+/// of spec/VotorTimers.tla.
+pub fn replay_timers(path: &str, stakes: &[u64], seed: u64) -> anyhow::Result<Value> {
+    let cases = crate::cases::load_tagged(path, "CASE")?;
+    let mut rep = crate::cases::CaseReport::default();
+    for case in &cases {
+        let s = case["s"].as_u64().unwrap();
+        let want: Vec<(u64, u64, bool)> = case["schedule"]
+            .as_array()
+            .unwrap()
+            .iter()
+            .map(|e| (e["at"].as_u64().unwrap(), e["s"].as_u64().unwrap(), e["k"] == "crashed"))
+            .collect();
+        rep.case(&format!("window:{}", s / 4), case.to_string(), case);
+        let mut d = VotorDriver::new(stakes, 0, s + 7, seed);
+        d.reset();
+        let horizon = want.iter().map(|w| w.0).max().unwrap_or(0) + 1000;
+        let ev = PoolEvent::ParentReady { slot: Slot::new(s), parent: d.world.block(&json!([0, "G"])) };
+        let mut votor = d.votor.take().expect("votor");
+        let got: Vec<(u64, u64, bool)> = d.rt.block_on(async {
+            // the timers armed by Votor::new for window 0 belong to another window: let them pass first
+            // (a spawned timer task computes its deadlines when it is first polled: let it start, then pass time)
+            for _ in 0..8 {
+                tokio::task::yield_now().await;
+            }
+            for _ in 0..40 {
+                tokio::time::advance(std::time::Duration::from_millis(250)).await;
+                for _ in 0..4 {
+                    tokio::task::yield_now().await;
+                }
+            }
+            let _ = votor.verif_fired_timeouts();
+            let _ = votor.verif_take_armed();
+            let t0 = tokio::time::Instant::now();
+            votor.verif_pool_event(ev).await;
+            for _ in 0..8 {
+                tokio::task::yield_now().await;
+            }
+            let mut got = Vec::new();
+            for _ in 0..horizon {
+                tokio::time::advance(std::time::Duration::from_millis(1)).await;
+                for _ in 0..4 {
+                    tokio::task::yield_now().await;
+                }
+                let now = t0.elapsed().as_millis() as u64;
+                for (slot, crashed) in votor.verif_fired_timeouts() {
+                    got.push((now, slot.inner(), crashed));
+                }
+            }
+            got
+        });
+        if got != want {
+            let fp = if got.len() != want.len() { "timers:count" } else { "timers:instants" };
+            rep.diverge(fp, &[fp], case, json!({"schedule": want}), json!({"fired": got}));
+        }
+    }
+    Ok(rep.to_json())
+}
